@@ -50,20 +50,22 @@ type eventRec struct {
 
 // world is everything outside the simulated process.
 type world struct {
-	root    string // project directory
-	home    string
-	seq     int
-	op      int // current history operation index
-	log     []execRec
-	events  []eventRec
-	sim     *simrt.Sim
-	bodies  map[string]*bodySpec // label -> how its body behaves (from the spec)
-	failing map[string]bool      // labels whose body fails in the current build
-	written map[string]string    // label -> text the body wrote to stdout in the current build (concatenated)
-	chunkT  *simrt.Tape
-	keyOf   func(label string) string
-	ctx     *simcheck.Ctx
-	tornOut bool
+	root       string // project directory
+	home       string
+	seq        int
+	op         int // current history operation index
+	log        []execRec
+	events     []eventRec
+	sim        *simrt.Sim
+	bodies     map[string]*bodySpec // label -> how its body behaves (from the spec)
+	failing    map[string]bool      // labels whose body fails in the current build
+	written    map[string]string    // label -> text the body wrote to stdout in the current build (concatenated)
+	chunkT     *simrt.Tape
+	keyOf      func(label string) string
+	ctx        *simcheck.Ctx
+	tornOut    bool
+	running    int // bodies between start and end right now
+	maxRunning int
 }
 
 type bodySpec struct {
@@ -191,6 +193,11 @@ func (w *world) simBody(thread *starlark.Thread, fn *starlark.Builtin, args star
 	if spec == nil {
 		spec = &bodySpec{}
 	}
+	w.running++
+	if w.running > w.maxRunning {
+		w.maxRunning = w.running
+	}
+	defer func() { w.running-- }()
 	s := w.sim
 	for i := 0; i < spec.Yields; i++ {
 		s.Yield("body", lbl)
@@ -273,6 +280,7 @@ type procCfg struct {
 	CrashAt     int
 	TornFrac    int
 	IOErrAt     map[int]int
+	IOErrPM     int
 	CondAny     bool
 	ReadDirPerm bool
 	SplitWrites bool
@@ -296,7 +304,7 @@ func (w *world) newSim(name string, pc procCfg, stepHook func(step int, kind, de
 	cfg := simrt.Config{
 		Sched: ts.Get(name + ".sched"), Misc: ts.Get(name + ".misc"), Fault: ts.Get(name + ".fault"),
 		Strategy: pc.Strategy, StickyNum: pc.Sticky, PCTDepth: pc.PCTDepth, PCTEst: 600, NumCPU: pc.NumCPU,
-		CrashAt: pc.CrashAt, TornFrac: pc.TornFrac, IOErrAt: pc.IOErrAt, CondSignalAny: pc.CondAny,
+		CrashAt: pc.CrashAt, TornFrac: pc.TornFrac, IOErrAt: pc.IOErrAt, IOErrPerMille: pc.IOErrPM, CondSignalAny: pc.CondAny,
 		ReadDirPerm: pc.ReadDirPerm, SplitWrites: pc.SplitWrites, MapOrderFixed: pc.MapFixed,
 		TempDir: filepath.Join(w.home, "tmp"), MaxSteps: pc.MaxSteps,
 	}
